@@ -140,6 +140,25 @@ class Prop(SeqProp):
         lines = [f"L{i}" + sfx[i % 4] for i in range(NLINES)]
         with open(path, "wb") as fh:
             fh.write("".join(l + "\n" for l in lines).encode("utf-8"))
+        form = len(case.ops) % 4 if len(case.ops) > 4 else 0
+        if form in (1, 2):
+            # the same file under another spelling of its path: through a symbolic link to a directory and `..` (what the
+            # kernel resolves differs from what collapsing `dir/..` textually gives — a file with other lines lives there),
+            # or relative to the working directory of the process tree's root
+            real = os.path.join(self.scratch, "store", "v3", "out")
+            os.makedirs(real, exist_ok=True)
+            os.makedirs(os.path.join(self.scratch, "data"), exist_ok=True)
+            link = os.path.join(self.scratch, "data", "current")
+            if not os.path.islink(link):
+                os.symlink(real, link)
+            target = os.path.join(self.scratch, "store", "v3", "forkfile.txt")
+            os.replace(path, target)
+            with open(os.path.join(self.scratch, "data", "forkfile.txt"), "wb") as fh:
+                fh.write("".join(f"decoy {i}\n" for i in range(NLINES)).encode("utf-8"))
+            path = os.path.join(link, "..", "forkfile.txt")
+            if form == 2:
+                # (os.path.relpath of the whole path would collapse `current/..` textually)
+                path = os.path.join(os.path.relpath(link, os.getcwd()), "..", "forkfile.txt")
         tree = ForkTree(case.meta["variant"], path, lines)
         iter_ops = set(case.meta.get("iter_ops", []))
         out = []
